@@ -72,7 +72,7 @@ REQUIRED = dict(
              'wngrid:full', 'wngrid:restricted', 'query:at-node', 'query:T-edge-midpoint', 'query:P-edge-midpoint',
              'query:interior', 'query:exact-Tmin', 'query:exact-Tmax', 'query:exact-Pmin', 'query:exact-Pmax',
              'magnitude:tiny', 'magnitude:mid', 'magnitude:large', 'magnitude:steep', 'magnitude:ones',
-             'exp-mode-zero-in-table', 'linear-mode-zero-in-table', 'live-switch:linear->exp', 'live-switch:exp->linear', 'history:thousand-requests-then-earlier-points-again',
+             'exp-mode-zero-in-table', 'linear-mode-zero-in-table', 'live-switch:linear->exp', 'live-switch:exp->linear', 'history:thousand-requests-then-earlier-points-again', 'table:a-temperature-node-listed-twice',
              'live-switch:exp->exp', 'live-switch:linear->linear', 'table:single-P-node', 'table:single-T-node', 'wngrid:reused-work-array', 'route:hdf5'])
 EPS = float(np.finfo(float).eps)
 TOOL_ID = 3
@@ -582,6 +582,13 @@ def wl_xsec(ctx, rng, zeros=False):
     wn = world.wn_grid(rng, max(nwn, 2))[:nwn] if nwn > 1 else np.array([float(rng.uniform(100, 5000))])
     x, mag = gen_values(rng, (len(P), len(T), nwn))
     mode = ['linear', 'exp'][rng.integers(0, 2)]
+    if not zeros and len(T) >= 3 and ctx.case['index'] % 10 == 6:
+        # a table stitched from a low-temperature and a high-temperature block: the seam temperature is listed twice (the same
+        # cross-sections at both copies)
+        j = int(rng.integers(1, len(T) - 1))
+        T = np.insert(T, j, T[j])
+        x = np.insert(x, j, x[:, j], axis=1)
+        ctx.observe('table:a-temperature-node-listed-twice')
     if zeros:
         k = rng.integers(0, 3)
         if k == 0:
